@@ -322,14 +322,15 @@ pub fn execute(h: &History, want: &str, rep: &mut Report) -> Option<Violation> {
                             // ---------------- C13 settles: bounded progress ----------------
                             // the error shrinks at least as fast as the RC law of the time in effect (2 % slack on 1-a),
                             // down to the filter resolution: |e_n| <= |e_1| * a^(n-1) + resolution
-                            let a_env = 1.0 - 0.98 * (1.0 - c.a_hi);
+                            // (C13 does not pin the speed; C14 allows a cutoff down to 0.813/t, hence the factor)
+                            let a_env = 1.0 - 0.78 * (1.0 - c.a_hi);
                             if seg_n == 1 {
                                 env = e.abs();
                                 env_slow = e.abs();
                                 env_settled = false;
                             } else {
                                 env *= a_env;
-                                env_slow *= 1.0 - 0.98 * (1.0 - a_slowest.max(c.a_hi));
+                                env_slow *= 1.0 - 0.78 * (1.0 - a_slowest.max(c.a_hi));
                             }
                             let tol_slow = (EPS2 * m_abs + 4.0e-45) / (1.0 - a_slowest.max(c.a_hi)) + carry;
                             if e.abs() > env * (1.0 + 1e-9) + tol && !(e.abs() > env_slow * (1.0 + 1e-9) + tol_slow) {
@@ -395,7 +396,9 @@ pub fn execute(h: &History, want: &str, rep: &mut Report) -> Option<Violation> {
                                     if err > max_pole_err {
                                         max_pole_err = err;
                                     }
-                                    if !(((1.0 - a_est) - (1.0 - a)).abs() <= 0.02 * (1.0 - a) + 1.0 / 4_194_304.0) {
+                                    // C14 pins the speed only through its two points: 40..55 % after t/10 and 99.5 % after t
+                                    // mean a cutoff of 0.813..1.271 (resp. >= 0.843) times 1/t; any pole in that band conforms
+                                    if !((1.0 - a_est) >= 0.80 * (1.0 - a) - 1.0 / 4_194_304.0 && (1.0 - a_est) <= 1.30 * (1.0 - a) + 1.0 / 4_194_304.0) {
                                         let t_est = 2.0 * std::f64::consts::PI / ((1.0 - a_est) * fs64);
                                         fail!("C14", "time-in-effect", format!("the output decays with pole {:.6} (a time of about {:.4} s) but the time in effect must be {} s (pole {:.6}): a set_time call was ignored or honoured against the 0.05 s dead-band rule, or the time is mapped wrongly", a_est, t_est, c.t, a), i, Some(k));
                                     }
